@@ -300,7 +300,7 @@ do_pbkdf2(char * l)
 	size_t plen, slen;
 	static uint8_t salt[4096];
 
-	if (sscanf(l, "pbkdf2 %8191s %8191s %ld %ld", phex, shex, &c, &dklen) != 4 || dklen < 1 || dklen > 4096) return;
+	if (sscanf(l, "pbkdf2 %8191s %8191s %ld %ld", phex, shex, &c, &dklen) != 4 || dklen < 1 || dklen > 100000) return;
 	plen = unhex(phex, key, sizeof(key));
 	slen = unhex(shex, salt, sizeof(salt));
 	PBKDF2_SHA256(key, plen, salt, slen, (uint64_t)c, out, (size_t)dklen);
